@@ -4,19 +4,37 @@ check of its property, undo the change. Writes seeded/STATUS.json. A patch that 
 was repaired or moved since) is listed as such, with the reason recorded in its meta.json if any."""
 import os, json, subprocess, sys
 ROOT = "/verif/seeded"
-only = sys.argv[1:]
+args = sys.argv[1:]
+# --resume: skip the seeds STATUS.json already has an entry for that was written by this run (marker file);
+# --newest-first: the latest rounds first. Results are merged into STATUS.json after EVERY seed, so a run can be stopped.
+resume = "--resume" in args
+newest = "--newest-first" in args
+only = [a for a in args if not a.startswith("--")]
 assert subprocess.run(["git", "-C", "/repo", "status", "--porcelain"], capture_output=True, text=True).stdout.strip() == "", "/repo not clean"
 status = {}
-for name in sorted(os.listdir(ROOT)):
+sp = os.path.join(ROOT, "STATUS.json")
+stamp = os.path.join(ROOT, ".run-stamp.json")
+done = set(json.load(open(stamp))) if resume and os.path.exists(stamp) else set()
+def rank(n):
+    import re
+    m = re.match(r"C\d\d-r(\d+)-", n)
+    return (-(int(m.group(1)) if m else 1), n) if newest else (0, n)
+def flush():
+    old = json.load(open(sp)) if os.path.exists(sp) else {}
+    old.update(status)
+    json.dump(old, open(sp, "w"), indent=1)
+    json.dump(sorted(done | set(status)), open(stamp, "w"))
+for name in sorted(os.listdir(ROOT), key=rank):
     d = os.path.join(ROOT, name)
     patch = os.path.join(d, "patch.diff")
-    if not os.path.isfile(patch) or (only and name not in only):
+    if not os.path.isfile(patch) or (only and name not in only) or name in done:
         continue
     meta = json.load(open(os.path.join(d, "meta.json")))
     pid = meta.get("property", name.split("-")[0])
     if subprocess.run(["git", "-C", "/repo", "apply", "--check", patch], capture_output=True).returncode != 0:
         status[name] = {"applies": False, "note": meta.get("applies_to", "the code it touches has changed since (repairs)")}
         print(name, "does not apply", flush=True)
+        flush()
         continue
     subprocess.run(["git", "-C", "/repo", "apply", patch], check=True)
     try:
@@ -27,9 +45,6 @@ for name in sorted(os.listdir(ROOT)):
         print(name, status[name], flush=True)
     finally:
         subprocess.run(["git", "-C", "/repo", "checkout", "--", "."], check=True)
-sp = os.path.join(ROOT, "STATUS.json")
-old = json.load(open(sp)) if only and os.path.exists(sp) else {}
-old.update(status)
-json.dump(old, open(sp, "w"), indent=1)
+    flush()
 missed = [n for n, s in status.items() if s.get("applies") and s.get("exit") != 1]
 print("applied:", sum(1 for s in status.values() if s.get("applies")), "missed:", missed)
